@@ -1045,6 +1045,19 @@ Proof.
   - apply masks_picks. exact Hp.
 Qed.
 
+Lemma comb_search_complete : forall (Hp : meas -> Z -> list Z) limit m digest bs,
+  picks bs (seqZ 0 64) -> (length bs <= comb_limit limit)%nat ->
+  Hp m (Z.lxor (m_first8 m) (mask_of bs)) = digest ->
+  comb_search Hp limit m digest <> None.
+Proof.
+  intros Hp limit m digest bs Hb Hl Hh. unfold comb_search.
+  pose proof (comb_cands_complete limit bs Hb Hl) as I.
+  generalize dependent (comb_cands limit). intros cands I.
+  destruct (find _ cands) as [x|] eqn:F; cbn [option_map]; [discriminate|].
+  exfalso. pose proof (find_none _ _ F (mask_of bs) I) as N. cbn beta in N.
+  rewrite Hh in N. assert (zlist_eqb digest digest = true) by (apply zlist_eqb_eq; reflexivity). congruence.
+Qed.
+
 Theorem repair_complete_comb : forall (Hp : meas -> Z -> list Z) P st m digest bs,
   st_comb_enabled st = true ->
   picks bs (seqZ 0 64) -> (length bs <= comb_limit (st_comb_limit st))%nat ->
@@ -1056,10 +1069,7 @@ Proof.
   - exists v. split; [reflexivity|]. eapply repair_sound. exact R.
   - exfalso. unfold repair in R.
     destruct (linear_search Hp P (st_lin_limit st) m digest); [discriminate|].
-    rewrite En in R. unfold comb_search in R.
-    destruct (find _ (comb_cands (st_comb_limit st))) as [x|] eqn:F; cbn [option_map] in R; [discriminate|].
-    pose proof (find_none _ _ F (mask_of bs) (comb_cands_complete _ _ Hb Hl)) as N. cbn beta in N.
-    rewrite Hh in N. assert (zlist_eqb digest digest = true) by (apply zlist_eqb_eq; reflexivity). congruence.
+    rewrite En in R. exact (comb_search_complete Hp _ m digest bs Hb Hl Hh R).
 Qed.
 
 (** a digest that no value of the register explains (PCR0_DATA differing behind its
@@ -1104,8 +1114,9 @@ Qed.
 
 Lemma comb_cands_range : forall limit x, In x (comb_cands limit) -> 0 <= x < 2 ^ 64.
 Proof.
-  intros limit x H. unfold comb_cands in H. apply in_flat_map in H. destruct H as (k & _ & H).
-  eapply masks_range; [|exact H]. apply Forall_forall. intros b Hb. apply In_seqZ_iff in Hb. lia.
+  (* (unfold in the goal, not in the hypothesis: the kernel re-checks the latter by evaluating the candidates) *)
+  intros limit x. unfold comb_cands. intro H. apply in_flat_map in H. destruct H as (k & _ & H).
+  refine (masks_range (seqZ 0 64) k x _ H). apply Forall_forall. intros b Hb. apply In_seqZ_iff in Hb. lia.
 Qed.
 
 (** whatever is returned as the corrected register is a 64-bit value: the search varies
@@ -1116,7 +1127,7 @@ Theorem repair_register_range : forall (Hp : meas -> Z -> list Z) P st m digest 
 Proof.
   intros Hp P st m digest v Hm. unfold repair, linear_search, comb_search.
   destruct (find _ (lin_cands P (st_lin_limit st))) as [d|] eqn:F; cbn [option_map].
-  - intro E. inversion E; subst. unfold wrap64, W64. pose proof (Z.mod_pos_bound (m_first8 m - d) (2 ^ 64) ltac:(lia)). lia.
+  - intro E. inversion E; subst. rewrite wrap64_mod. unfold W64. change 18446744073709551616 with (2 ^ 64). apply Z.mod_pos_bound. lia.
   - destruct (st_comb_enabled st); [|discriminate].
     destruct (find _ (comb_cands (st_comb_limit st))) as [x|] eqn:G; cbn [option_map]; [|discriminate].
     intro E. inversion E; subst. apply find_some in G. destruct G as [G _].
